@@ -140,6 +140,27 @@ def memoRun {κ ν : Type} [DecidableEq κ] (f : κ → ν) (evict : List (κ ×
       let b := memoRun f evict a.2 ks
       (a.1 :: b.1, b.2)
 
+/-- A cache that is shared by all instances (keyed by `κ` only) in front of a function that takes the instance as an
+argument — what `cached_property` would be if it kept its value on the descriptor, or `lru_cache` on a method if `self`
+were not part of the key.  The caches of the code are keyed as follows: `lru_cache` on `TokenEncoder.strop`,
+`Language.get_dependency_builder`, `LanguageClassLoader.load_language_class`: `(self, arguments)` — per instance;
+`cached_property` (`Language._token_encoder`): `instance.__dict__` — per instance; `_make_textwrap`: its three
+arguments, module-wide, the function has no instance; `_type_to_template_lookup_cache`: a dict attribute of the loader
+— per instance. -/
+def memoGetShared {ι κ ν : Type} [DecidableEq κ] (f : ι → κ → ν) (cache : List (κ × ν)) (i : ι) (k : κ) :
+    ν × List (κ × ν) :=
+  match cacheFind cache k with
+  | some v => (v, cache)
+  | none => (f i k, (k, f i k) :: cache)
+
+def memoRunShared {ι κ ν : Type} [DecidableEq κ] (f : ι → κ → ν) :
+    List (κ × ν) → List (ι × κ) → List ν × List (κ × ν)
+  | cache, [] => ([], cache)
+  | cache, q :: qs =>
+      let a := memoGetShared f cache q.1 q.2
+      let b := memoRunShared f a.2 qs
+      (a.1 :: b.1, b.2)
+
 /-- Every stored value is the function's value. -/
 def CacheValid {κ ν : Type} (f : κ → ν) (cache : List (κ × ν)) : Prop := ∀ p ∈ cache, p.2 = f p.1
 
